@@ -417,7 +417,56 @@ var advances = []int64{5 * mn, 59 * mn, 61 * mn, 3 * hr, 23 * hr, 25 * hr, 4*dy 
 var plantNames = []string{"README", "fuzz/corpus/x", "fuzz/a-d.txt", "00/foreign", "00/abc-a.bak", "ff/x.tmp", "ff/0123-dx", "log.txt", "trim.txt.bak"}
 var trimTxts = []string{"", "x", "12x", "99999999999999999999999", "-", " \n"}
 
+// genSkeleton builds a history along the life cycle the statement talks about: store, use within / beyond the
+// mtime granularity, let time pass up to around the five-day limit, store fresh entries, trim when due, trim again.
+func genSkeleton(t *rapid.T) histCase {
+	var h histCase
+	add := func(o op) { h.Ops = append(h.Ops, o) }
+	if rapid.IntRange(0, 3).Draw(t, "pretrim") == 0 {
+		add(op{Op: "trim"}) // a first trim so that the next one is only due after a day
+	}
+	nput := rapid.IntRange(1, 4).Draw(t, "nput")
+	for i := 0; i < nput; i++ {
+		add(op{Op: "put", ID: rapid.IntRange(0, nIDs-1).Draw(t, "id"), C: rapid.IntRange(0, nCont-1).Draw(t, "c")})
+	}
+	if rapid.IntRange(0, 2).Draw(t, "plant") == 0 {
+		add(op{Op: "plant", Name: rapid.SampledFrom(plantNames).Draw(t, "pname"), Sec: rapid.SampledFrom([]int64{0, 6 * dy, 40 * dy}).Draw(t, "page")})
+	}
+	for round, nr := 0, rapid.IntRange(1, 3).Draw(t, "rounds"); round < nr; round++ {
+		add(op{Op: "advance", Sec: rapid.SampledFrom([]int64{5 * mn, 59 * mn, 61 * mn, 3 * hr, 23 * hr, 25 * hr}).Draw(t, "small")})
+		for i, nl := 0, rapid.IntRange(0, 3).Draw(t, "nlook"); i < nl; i++ {
+			add(op{Op: rapid.SampledFrom([]string{"get", "getbytes", "getfile", "outputfile"}).Draw(t, "look"), ID: rapid.IntRange(0, nIDs-1).Draw(t, "id"), C: rapid.IntRange(0, nCont-1).Draw(t, "c")})
+		}
+	}
+	add(op{Op: "advance", Sec: rapid.SampledFrom([]int64{4*dy + 23*hr, 5*dy - 5*mn, 5*dy + 5*mn, 5*dy + hr - 5*mn, 5*dy + hr + 5*mn, 6 * dy, 4 * dy}).Draw(t, "big")})
+	for i, nf := 0, rapid.IntRange(0, 2).Draw(t, "nfresh"); i < nf; i++ {
+		add(op{Op: "put", ID: rapid.IntRange(0, nIDs-1).Draw(t, "id"), C: rapid.IntRange(0, nCont-1).Draw(t, "c")})
+	}
+	if rapid.IntRange(0, 4).Draw(t, "record") == 0 {
+		o := op{Op: "trimtxt"}
+		switch rapid.IntRange(0, 3).Draw(t, "tk") {
+		case 0:
+			o.Txt = "missing"
+		case 1:
+			o.Txt = rapid.SampledFrom(trimTxts[1:]).Draw(t, "ttxt")
+		default:
+			o.Sec = rapid.SampledFrom([]int64{10 * mn, 23 * hr, 25 * hr, -30 * mn, -2 * hr, -3 * dy}).Draw(t, "toff")
+		}
+		add(o)
+	}
+	add(op{Op: "trim"})
+	for i, nl := 0, rapid.IntRange(0, 2).Draw(t, "nlook2"); i < nl; i++ {
+		add(op{Op: rapid.SampledFrom([]string{"get", "getbytes", "getfile"}).Draw(t, "look"), ID: rapid.IntRange(0, nIDs-1).Draw(t, "id")})
+	}
+	add(op{Op: "advance", Sec: rapid.SampledFrom([]int64{23 * hr, 25 * hr, 2 * dy, 5*dy + 2*hr}).Draw(t, "after")})
+	add(op{Op: "trim"})
+	return h
+}
+
 func genHist(t *rapid.T) histCase {
+	if rapid.Bool().Draw(t, "skeleton") {
+		return genSkeleton(t)
+	}
 	n := rapid.IntRange(2, 28).Draw(t, "nops")
 	var h histCase
 	for i := 0; i < n; i++ {
